@@ -98,19 +98,22 @@ private theorem postRun_append (req : Nat) (H : List Text) (st : PostSt) (a b : 
     postRun req H st (a ++ b) = postRun req H (postRun req H st a) b := by
   simp [postRun, List.foldl_append]
 
-private theorem idMatches_self (req : Nat) (h : req < 1000000) : idMatches req (.int (req : Int)) = true := by
-  simp [idMatches, h]
+/-- regenerated fact, decided: today's matcher and legacy table compare `requestIDKey` renderings (D01 repaired) -/
+theorem C07_fact_id_key : idKeyToday = true := by decide
+
+private theorem idMatches_self (req : Nat) : idMatches req (.int (req : Int)) = true := by
+  simp [idMatches, idMatchesK, C07_fact_id_key]
 
 /-- resync, POST-SSE: whatever inert lines (comments, blank lines, unknown fields, other peoples' frames, notifications,
     70 KiB or 1 MiB of them) precede the answer on the call's stream, the call returns that answer's result. -/
-theorem C07_resync_post (req : Nat) (hreq : req < 1000000) (H : List Text) (g : List Line)
+theorem C07_resync_post (req : Nat) (H : List Text) (g : List Line)
     (hg : ∀ l ∈ g, postInert req l = true) (r : Json) (n : Nat) :
     postCall req H (g ++ [dataLine (wfResult req r) n]) .eof = .ok r := by
   have hi := postRun_inert req H g {} hg rfl
   unfold postCall
   rw [postRun_append]
   generalize postRun req H {} g = st at hi
-  have hm : idMatches req (.int (req : Int)) = true := idMatches_self req hreq
+  have hm : idMatches req (.int (req : Int)) = true := idMatches_self req
   have step : postRun req H st [dataLine (wfResult req r) n] = postReceived H st (.ok r) := by
     simp [postRun, postStep, hi.1, dataLine, payloadOf, postData, wfResult, postAddressed, lookup, hasKey, hm]
   rw [step]
@@ -155,15 +158,18 @@ theorem C07_unknown_id_harmless_post (req : Nat) (H : List Text) (st : PostSt) (
     (postStep req H st ⟨.data ⟨true, some (.obj m), false⟩, ind, n⟩).result = st.result :=
   postStep_inert req H st _ (by simp [postInert, hid, hn]) hd
 
-/-- ids of the wrong JSON type never match, except a string that spells the same digits (`%v` prints both alike) -/
+/-- ids of the wrong JSON type never match — not even a string that spells the same digits; the counter value matches
+    whatever its size. Before the D01 repair (`%v` on both sides) the string "2" matched call 2 and the answer to call
+    10^6 did not match. -/
 example : idMatches 2 .null = false ∧ idMatches 2 (.bool true) = false ∧ idMatches 2 (.arr [.int 2]) = false ∧
-    idMatches 2 (.dec 25 1) = false ∧ idMatches 2 (.str t!"abc") = false ∧ idMatches 2 (.str t!"2") = true ∧
-    idMatches 1000000 (.int 1000000) = false := by decide
+    idMatches 2 (.dec 25 1) = false ∧ idMatches 2 (.str t!"abc") = false ∧ idMatches 2 (.str t!"2") = false ∧
+    idMatches 1000000 (.int 1000000) = true ∧
+    idMatchesK false 2 (.str t!"2") = true ∧ idMatchesK false 1000000 (.int 1000000) = false := by decide
 
 example : postCall 2 [t!"verif/n"]
     [⟨.comment, false, 71680⟩, ⟨.data (payloadOf (wfNote t!"verif/n" [(t!"k", .int 1)])), false, 60⟩, ⟨.blank, false, 0⟩,
      ⟨.data (payloadOf (wfResult 9 (.obj []))), false, 50⟩, dataLine (wfResult 2 (.obj [])) 50] .eof = .ok (.obj []) :=
-  C07_resync_post 2 (by decide) [t!"verif/n"]
+  C07_resync_post 2 [t!"verif/n"]
     [⟨.comment, false, 71680⟩, ⟨.data (payloadOf (wfNote t!"verif/n" [(t!"k", .int 1)])), false, 60⟩, ⟨.blank, false, 0⟩,
      ⟨.data (payloadOf (wfResult 9 (.obj []))), false, 50⟩] (by decide) (.obj []) 50
 
@@ -500,10 +506,10 @@ private theorem leg_inv (F : Facts) (c : Nat) (g : List Line)
         · rfl
       · exact h4
 
-private theorem leg_answer (F : Facts) (st : LegSt) (c : Nat) (hc : c < 1000000) (r : Json) (n : Nat) (h1 : st.halt = none)
+private theorem leg_answer (F : Facts) (st : LegSt) (c : Nat) (r : Json) (n : Nat) (h1 : st.halt = none)
     (h2 : c ∈ st.tbl.pending) (h3 : st.tbl.got c = none) :
     (legRun F st (legEvent (wfResult c r) n)).tbl.got c = some (.ok r) ∧ (legRun F st (legEvent (wfResult c r) n)).halt = none := by
-  have hm := idMatches_self c hc
+  have hm := idMatches_self c
   have hne : (t!"message" : Text) ≠ t!"endpoint" := by decide
   have : legRun F st (legEvent (wfResult c r) n) =
       { st with etype := [], data := none, tbl := st.tbl.deliver (fun k => idMatches k (.int (c : Int))) (.ok r) } := by
@@ -513,28 +519,28 @@ private theorem leg_answer (F : Facts) (st : LegSt) (c : Nat) (hc : c < 1000000)
   exact ⟨deliver_sel _ _ _ c h2 hm h3, h1⟩
 
 /-- every region: garbage that is not addressed to `c` and (unless the latch is guarded) does not name the `endpoint` event -/
-private theorem leg_resync_general (F : Facts) (st : LegSt) (c : Nat) (hc : c < 1000000) (h1 : st.halt = none)
+private theorem leg_resync_general (F : Facts) (st : LegSt) (c : Nat) (h1 : st.halt = none)
     (h2 : c ∈ st.tbl.pending) (h3 : st.tbl.got c = none) (h4 : legDataNotFor c st.data = true)
     (h5 : F.latchGuarded = true ∨ st.etype ≠ t!"endpoint") (g : List Line)
     (hg : ∀ l ∈ g, legLineAddressed c l = false ∧ (F.latchGuarded = true ∨ l.namesEndpoint = false)) (r : Json) (n : Nat) :
     (legRun F st (g ++ legEvent (wfResult c r) n)).tbl.got c = some (.ok r) := by
   rw [legRun_append]
   obtain ⟨i1, i2, i3⟩ := leg_inv F c g hg st h1 h2 h3 h4 h5
-  exact (leg_answer F _ c hc r n i1 i2 i3).1
+  exact (leg_answer F _ c r n i1 i2 i3).1
 
 /-- resync, legacy SSE, full statement, good region (today): complete garbage lines — comments, unknown fields, half events,
     events of unknown types, repeated / malformed endpoint events, frames for other calls, unknown and wrongly typed ids,
     1 MiB lines — before the well-formed answer to the pending call `c` never prevent `c` from completing with that answer. -/
-theorem C07_resync_legacy (F : Facts) (hF : F.latchGuarded = true) (st : LegSt) (c : Nat) (hc : c < 1000000) (h1 : st.halt = none)
+theorem C07_resync_legacy (F : Facts) (hF : F.latchGuarded = true) (st : LegSt) (c : Nat) (h1 : st.halt = none)
     (h2 : c ∈ st.tbl.pending) (h3 : st.tbl.got c = none) (h4 : legDataNotFor c st.data = true) (g : List Line)
     (hg : ∀ l ∈ g, legLineAddressed c l = false) (r : Json) (n : Nat) :
     (legRun F st (g ++ legEvent (wfResult c r) n)).tbl.got c = some (.ok r) :=
-  leg_resync_general F st c hc h1 h2 h3 h4 (Or.inl hF) g (fun l hl => ⟨hg l hl, Or.inl hF⟩) r n
+  leg_resync_general F st c h1 h2 h3 h4 (Or.inl hF) g (fun l hl => ⟨hg l hl, Or.inl hF⟩) r n
 
 /-- a later call on the same client completes whenever the reader is still alive (whatever half event it is holding) -/
-theorem C07_later_call_legacy (F : Facts) (st : LegSt) (h : st.halt = none) (n : Nat) (hn : n < 1000000) (r : Json) (size : Nat) :
+theorem C07_later_call_legacy (F : Facts) (st : LegSt) (h : st.halt = none) (n : Nat) (r : Json) (size : Nat) :
     (legRun F { st with tbl := Table.init [n] } (legEvent (wfResult n r) size)).tbl.got n = some (.ok r) :=
-  (leg_answer F { st with tbl := Table.init [n] } n hn r size h (by simp [Table.init]) rfl).1
+  (leg_answer F { st with tbl := Table.init [n] } n r size h (by simp [Table.init]) rfl).1
 
 private theorem legStep_sim (F : Facts) (c : Nat) (s1 s2 : LegSt) (l : Line) (h : LegSim c s1 s2) :
     LegSim c (legStep F s1 l) (legStep F s2 l) := by
@@ -603,7 +609,7 @@ example : (legRun ⟨none, true, .resync⟩ { tbl := Table.init [2, 3], latch :=
       eventLine t!"ping", dataLine (wfResult 9001 (.obj [])) 50, blankLine, dataLine (wfResult 9000 (.obj [])) 50, blankLine,
       eventLine t!"message", dataLine (wfResult 3 (.obj [])) 50, blankLine, eventLine t!"message"] ++
       legEvent (wfResult 2 (.obj [(t!"nextCursor", .str t!"a")])) 70)).tbl.got 2 = some (.ok (.obj [(t!"nextCursor", .str t!"a")])) :=
-  C07_resync_legacy _ rfl _ 2 (by decide) rfl (by simp [Table.init]) rfl rfl _ (by decide) _ _
+  C07_resync_legacy _ rfl _ 2 rfl (by simp [Table.init]) rfl rfl _ (by decide) _ _
 
 /-! ## 5. stdio -/
 
@@ -924,14 +930,14 @@ theorem C07_resync_here (H : List Text) :
     (∀ (g : List Line) method params, method ∈ H → ∀ n,
       (getRun Mcp.Gen.rdFacts H {} (g ++ getEvent (wfNote method params) n)).notes =
         (getRun Mcp.Gen.rdFacts H {} g).notes ++ [(method, .obj params)]) ∧
-    (∀ (ids : List Nat) (c : Nat), c ∈ ids → c < 1000000 → ∀ (g : List Line), (∀ l ∈ g, legLineAddressed c l = false) → ∀ r n,
+    (∀ (ids : List Nat) (c : Nat), c ∈ ids → ∀ (g : List Line), (∀ l ∈ g, legLineAddressed c l = false) → ∀ r n,
       (legRun Mcp.Gen.rdFacts { tbl := Table.init ids } (g ++ legEvent (wfResult c r) n)).tbl.got c = some (.ok r)) ∧
     (∀ (ids : List Nat) (c : Nat), c ∈ ids → ∀ (g : List Frame), (∀ f ∈ g, stdioAddressed c f = false) → ∀ o,
       (stdioRun Mcp.Gen.rdFacts H { tbl := Table.init ids } (g ++ [.value (wfResult c (.obj o))])).tbl.got c =
         some (.ok (.obj o))) := by
   obtain ⟨h1, h2, h3⟩ := facts_here
   exact ⟨fun g method params hm n => C07_resync_get _ h1 H {} rfl g method params hm n,
-    fun ids c hc hlt g hg r n => C07_resync_legacy _ h2 _ c hlt rfl (by simpa [Table.init] using hc) rfl rfl g hg r n,
+    fun ids c hc g hg r n => C07_resync_legacy _ h2 _ c rfl (by simpa [Table.init] using hc) rfl rfl g hg r n,
     fun ids c hc g hg o => C07_resync_stdio _ h3 H _ c rfl (by simpa [Table.init] using hc) rfl g hg o⟩
 
 end Mcp.Props.C07
